@@ -1,6 +1,7 @@
 package main
 
 import (
+	"strconv"
 	"bufio"
 	"encoding/json"
 	"os"
@@ -24,6 +25,8 @@ type c17Req struct {
 	Conc  int      `json:"conc"` // 0/1 sequential, >1 that many goroutines sharing the n calls
 	Input []string `json:"input"`
 	Basm  string   `json:"basm,omitempty"`
+	// opcode -> delay in clocks -> probability; one SimDelays object is built from it and shared by all the calls
+	Delays map[string]map[string]float32 `json:"delays,omitempty"`
 }
 
 type c17Res struct {
@@ -126,12 +129,24 @@ func init() {
 				emit(res)
 				continue
 			}
+			var sd *simbox.SimDelays
+			if q.Delays != nil {
+				sd = simbox.NewSimDelays()
+				for op, dist := range q.Delays {
+					dd := simbox.DelayDistribution{}
+					for d, p := range dist {
+						n, _ := strconv.Atoi(d)
+						dd[int32(n)] = p
+					}
+					sd.OpcodeDelays[op] = dd
+				}
+			}
 			one := func() string {
 				switch q.Call {
 				case "single":
 					var out []string
 					var e error
-					out, e = bm.SinglePipelineSimulate("unsigned", q.Input, nil)
+					out, e = bm.SinglePipelineSimulate("unsigned", q.Input, sd)
 					if e != nil {
 						return "err:" + e.Error()
 					}
